@@ -167,9 +167,9 @@ pub fn run_with(p: &Prog, sem: &Sem, lim: &Limits) -> RunResult {
     let r = it.exec_block_in(&p.stmts, &global);
     let outcome = match r {
         Ok(None) => Outcome::Ok,
-        Ok(Some(Flow::Break(id))) => Outcome::Err(it.mk_err(EKind::JumpOutside{which: "break"}, id, PosRule::Op)),
-        Ok(Some(Flow::Continue(id))) => Outcome::Err(it.mk_err(EKind::JumpOutside{which: "continue"}, id, PosRule::Op)),
-        Ok(Some(Flow::Return(_, id))) => Outcome::Err(it.mk_err(EKind::JumpOutside{which: "return"}, id, PosRule::Op)),
+        Ok(Some(Flow::Break(id))) => Outcome::Err(it.mk_err(EKind::JumpOutside{which: "break"}, id, PosRule::Loose)),
+        Ok(Some(Flow::Continue(id))) => Outcome::Err(it.mk_err(EKind::JumpOutside{which: "continue"}, id, PosRule::Loose)),
+        Ok(Some(Flow::Return(_, id))) => Outcome::Err(it.mk_err(EKind::JumpOutside{which: "return"}, id, PosRule::Loose)),
         Err(Abort::Err(e)) => Outcome::Err(*e),
         Err(Abort::Discard(why)) => Outcome::Discard(why),
     };
@@ -455,6 +455,7 @@ impl Interp {
 
     // ------------------------------------------------------------- binding
 
+    #[allow(unused_variables)]
     fn declare(&mut self, env: &Env, name: &str, v: SV, decl: Id, decl_is_op: bool) -> R<()> {
         if self.sem.declare_assigns_outer && env.vars.borrow().get(name).is_none() && assign_var(env, name, v.clone()) {
             return Ok(());
@@ -466,7 +467,9 @@ impl Interp {
             return self.fail(
                 EKind::AlreadyDeclared{name: name.to_string(), prev: p, prev_is_op: po},
                 decl,
-                if decl_is_op { PosRule::Op } else { PosRule::First },
+                // Where a redeclaration is reported is not documented; only
+                // the cited earlier position is (C20).
+                PosRule::Loose,
             );
         }
         vars.insert(name.to_string(), Binding{v, decl, decl_is_op});
@@ -1278,13 +1281,13 @@ impl Interp {
                     return Err(Abort::Discard("variant: jump crosses call"));
                 }
                 let _ = call_id;
-                self.fail(EKind::JumpOutside{which: "break"}, id, PosRule::Op)
+                self.fail(EKind::JumpOutside{which: "break"}, id, PosRule::Loose)
             },
             Some(Flow::Continue(id)) => {
                 if self.sem.jump_crosses_call {
                     return Err(Abort::Discard("variant: jump crosses call"));
                 }
-                self.fail(EKind::JumpOutside{which: "continue"}, id, PosRule::Op)
+                self.fail(EKind::JumpOutside{which: "continue"}, id, PosRule::Loose)
             },
         }
     }
